@@ -328,6 +328,14 @@ def handle : R String := do
     match StrLit.read s with
     | some r => pure s!"ok {wStr r.value} {r.warnings}"
     | none => pure "err"
+  | "cliargs" => do
+    let argv ← list str
+    match CliArgs.parseArgs argv with
+    | .usage m => pure s!"exit 1 {wStr m}"
+    | .info t => pure s!"exit 0 {wStr t}"
+    | .ok st =>
+      let thr := match st.throttle with | some n => n | none => -1
+      pure s!"ok {wStr st.path} {wStr st.mode} {wBool st.code} {wBool st.data} {st.data_start} {wBool st.no_debug_ops} {wBool st.obfuscate} {wBool st.stdout} {thr} {wBool st.warn_octal_on} {wBool st.warn_return_on} {st.volume} {wList wPair st.init} {wBool st.color}"
   | "wf" => do
     let v ← vm
     pure (wBool (wfb v))
